@@ -668,6 +668,13 @@ func (s *levelsController) subcompact(it y.Iterator, kr keyRange, cd compactDef,
 	// Check overlap of the top level with the levels which are not being
 	// compacted in this compaction.
 	hasOverlap := s.checkOverlap(cd.allTables(), cd.nextLevel.level+1)
+	if cd.thisLevel.level == 0 && cd.nextLevel.level == 0 {
+		// The output of an L0->L0 compaction stays in L0, next to L0 tables which are not part
+		// of this compaction (too big, too young or being compacted) and which can hold older
+		// versions of the same keys. checkOverlap only looks at the levels below, so treat such
+		// a compaction as overlapping: deletion markers must be kept.
+		hasOverlap = true
+	}
 
 	// Pick a discard ts, so we can discard versions below this ts. We should
 	// never discard any versions starting from above this timestamp, because
